@@ -182,7 +182,8 @@ theorem encodeF_lt (eb mb : Nat) (hmb : 1 ≤ mb) (f : F64) : encodeF eb mb f < 
   | nan neg => simp only [encodeF]; split <;> omega
 
 theorem castBool_lt {l : Leaf} {x : Nat} (h : castBool l = .ok x) : x < 2 := by
-  cases l <;> simp only [castBool, Cast.ok.injEq] at h <;> first | (subst h; split <;> omega) | cases h
+  cases l <;> simp only [castBool, Cast.ok.injEq] at h <;>
+    first | (subst h; split <;> omega) | (subst h; omega) | cases h
 
 theorem fitInt_lt {bits : Nat} {s : Bool} {i : Int} {x : Nat} (h : fitInt bits s i = .ok x) : x < 2 ^ bits := by
   simp only [fitInt] at h
@@ -249,7 +250,7 @@ theorem leafToF64_lt {l : Leaf} {b : Nat} (hw : l.wf = true) (h : leafToF64 l = 
     · rename_i hb; simp only [Cast.ok.injEq] at h; subst h; exact pyFloatOfInt_lt hb
     · cases h
   | float c => simp only [leafToF64, Cast.ok.injEq] at h; subst h; simpa [Leaf.wf] using hw
-  | none => simp [leafToF64] at h
+  | none => simp only [leafToF64, Cast.ok.injEq] at h; subst h; decide
   | complex _ _ => simp [leafToF64] at h
   | str _ => simp [leafToF64] at h
   | bytes _ => simp [leafToF64] at h
@@ -334,9 +335,80 @@ theorem castComplex_lt {eb mb half : Nat} {l : Leaf} {x : Nat} (hmb : 1 ≤ mb) 
       omega
     | err e => simp [castComplex, hL] at h
     | unmodelled => simp [castComplex, hL] at h
-  | none => simp [castComplex, leafToF64] at h
+  | none =>
+    simp only [castComplex, Cast.ok.injEq] at h
+    subst h
+    have h1 := hpart 0x7FF8000000000000 (by decide)
+    rw [hdouble]
+    have : (if eb = 11 then 0x7FF8000000000000 else encodeF eb mb (decode64 0x7FF8000000000000)) * 2 ^ half + 2 ^ half
+        ≤ 2 ^ half * 2 ^ half := by
+      have := Nat.mul_le_mul_right (2 ^ half) (Nat.succ_le_of_lt h1)
+      simpa [Nat.succ_mul] using this
+    omega
   | str _ => simp [castComplex, leafToF64] at h
   | bytes _ => simp [castComplex, leafToF64] at h
+
+theorem encF8_lt (k : F8) (f : F64) : encF8 k f < 256 := by
+  rcases f with (_|_) | ⟨(_|_), m, e⟩ | (_|_) | (_|_) <;> cases k <;> simp only [encF8, sgn8] <;>
+    (try decide) <;> (repeat' split) <;> omega
+
+theorem encF8_e2m1_lt (f : F64) : encF8 .e2m1 f < 16 := by
+  rcases f with (_|_) | ⟨(_|_), m, e⟩ | (_|_) | (_|_) <;> simp only [encF8] <;>
+    (try decide) <;> (repeat' split) <;> omega
+
+theorem encF8_lt_bits (k : F8) (f : F64) : encF8 k f < 2 ^ k.bits := by
+  cases k
+  case e2m1 => exact encF8_e2m1_lt f
+  all_goals exact encF8_lt _ f
+
+/-- ml_dtypes' float types: total on bool / int64 / float scalars, `TypeError` on everything else -/
+theorem castF8_total (k : F8) (l : Leaf) :
+    (l.isReal64 = true → ∃ f, castF8 k l = .ok (encF8 k f)) ∧
+    (l.isReal64 = false → castF8 k l = .err "TypeError") := by
+  cases l with
+  | bool b => exact ⟨fun _ => ⟨_, rfl⟩, fun h => by simp [Leaf.isReal64] at h⟩
+  | float b => exact ⟨fun _ => ⟨_, rfl⟩, fun h => by simp [Leaf.isReal64] at h⟩
+  | int i =>
+    refine ⟨fun h => ?_, fun h => ?_⟩
+    · simp only [Leaf.isReal64, decide_eq_true_eq] at h
+      exact ⟨decode32 (encodeF 8 23 (ofInt i)), by simp only [castF8, h, and_self, if_true]⟩
+    · simp only [Leaf.isReal64, decide_eq_false_iff_not] at h
+      simp only [castF8, h, if_false]
+  | none => exact ⟨fun h => by simp [Leaf.isReal64] at h, fun _ => rfl⟩
+  | complex _ _ => exact ⟨fun h => by simp [Leaf.isReal64] at h, fun _ => rfl⟩
+  | str _ => exact ⟨fun h => by simp [Leaf.isReal64] at h, fun _ => rfl⟩
+  | bytes _ => exact ⟨fun h => by simp [Leaf.isReal64] at h, fun _ => rfl⟩
+
+theorem castLeaf_f8 (k : F8) (l : Leaf) : castLeaf k.dtype l = castF8 k l := by
+  cases k <;> rfl
+
+theorem castAll_f8 (k : F8) : ∀ (ls : List Leaf), ls.all Leaf.isReal64 = true →
+    ∃ xs, castAll k.dtype ls = .ok xs ∧ ∀ x ∈ xs, x < 2 ^ k.bits
+  | [], _ => ⟨[], rfl, by simp⟩
+  | l :: ls, h => by
+    simp only [List.all_cons, Bool.and_eq_true] at h
+    obtain ⟨xs, hxs, hb⟩ := castAll_f8 k ls h.2
+    obtain ⟨f, hf⟩ := (castF8_total k l).1 h.1
+    refine ⟨encF8 k f :: xs, by simp [castAll, castLeaf_f8, hf, hxs], ?_⟩
+    intro x hx
+    simp only [List.mem_cons] at hx
+    rcases hx with rfl | hx
+    · exact encF8_lt_bits k f
+    · exact hb x hx
+
+theorem castF8_lt {k : F8} {l : Leaf} {x : Nat} (h : castF8 k l = .ok x) : x < 256 := by
+  cases l with
+  | bool b => simp only [castF8, Cast.ok.injEq] at h; subst h; exact encF8_lt _ _
+  | int i =>
+    simp only [castF8] at h
+    split at h
+    · simp only [Cast.ok.injEq] at h; subst h; exact encF8_lt _ _
+    · cases h
+  | float b => simp only [castF8, Cast.ok.injEq] at h; subst h; exact encF8_lt _ _
+  | none => simp [castF8] at h
+  | complex _ _ => simp [castF8] at h
+  | str _ => simp [castF8] at h
+  | bytes _ => simp [castF8] at h
 
 /-- every converted scalar fits the item of the numpy type -/
 theorem castLeaf_lt {d : DType} {l : Leaf} {x : Nat} (hw : l.wf = true) (h : castLeaf d l = .ok x) :
@@ -382,6 +454,18 @@ theorem castLeaf_lt {d : DType} {l : Leaf} {x : Nat} (hw : l.wf = true) (h : cas
   case complex128 => have := castComplex_lt (half := 64) (by decide) hw (by decide) h
                      have e : npItemBytes .complex128 = 16 := by decide
                      rw [e]; simpa using this
+  case float8e4m3fn => have := castF8_lt h; have e : npItemBytes .float8e4m3fn = 1 := by decide
+                       rw [e]; omega
+  case float8e4m3fnuz => have := castF8_lt h; have e : npItemBytes .float8e4m3fnuz = 1 := by decide
+                         rw [e]; omega
+  case float8e5m2 => have := castF8_lt h; have e : npItemBytes .float8e5m2 = 1 := by decide
+                     rw [e]; omega
+  case float8e5m2fnuz => have := castF8_lt h; have e : npItemBytes .float8e5m2fnuz = 1 := by decide
+                         rw [e]; omega
+  case float8e8m0 => have := castF8_lt h; have e : npItemBytes .float8e8m0 = 1 := by decide
+                     rw [e]; omega
+  case float4e2m1 => have := castF8_lt h; have e : npItemBytes .float4e2m1 = 1 := by decide
+                     rw [e]; omega
 
 /-! ## the inference chain on uniform data -/
 
